@@ -11,7 +11,7 @@
    xoff = lbuf_indents of the NEW buffer at r1, vi_drawfix(r1, r2, r2 - r1 + 1, 0) was called (draw_sim: it keeps the picture). *)
 From Coq Require Import List ZArith NArith Bool Lia.
 From NV Require Import Bytes UcDefs CLite CLiteProps GenCFuncs CLiteTac CLiteExt TrLbufBase MotDefs TrMot TrViOpPure TrViOp TrViOp2.
-From NV Require IoDefs.
+From NV Require IoDefs ViDefs TrViOpModel.
 Import ListNotations.
 Local Open Scope Z_scope.
 
@@ -215,3 +215,79 @@ Section Shift.
     exists m9, bln', lbs'. split; [reflexivity|]. split; [exact E10|]. split; assumption.
   Qed.
 End Shift.
+
+(* ------------------------------------------------------------------ the text of one row is the interpreter's (ViDefs.shift_line on the characters) *)
+Lemma uc_next_bl s : is_bl (nthb s 0) = true -> uc_next s = 1%nat.
+Proof.
+  destruct s as [|c r]; [intro H; discriminate H|]. unfold is_bl, nthb. cbn [nth]. intro H.
+  apply orb_true_iff in H. destruct H as [H|H]; apply N.eqb_eq in H; subst c; reflexivity.
+Qed.
+Theorem shift_b_model dir s : nonul s -> s <> [] -> ViDefs.flat (ViDefs.shift_line (0 <? dir) (chop s)) = shift_b dir s.
+Proof.
+  intros Hn Hne. destruct (TrViOpModel.chop_step s Hn Hne) as ((L1 & L2) & Ec).
+  assert (Hb0 : b0 (firstn (uc_next s) s) = nthb s 0).
+  { destruct s as [|c r]; [congruence|]. destruct (uc_next (c :: r)); [lia|reflexivity]. }
+  unfold shift_b, shift_parts, ViDefs.shift_line. rewrite Ec. destruct (0 <? dir); cbn [fst snd].
+  - unfold ViDefs.is_nlb. rewrite Hb0. destruct (nthb s 0 =? 10)%N; cbn [app skipn]; rewrite <- Ec.
+    + apply TrViOpModel.flat_chop. exact Hn.
+    + unfold ViDefs.flat. cbn [concat app]. f_equal. apply TrViOpModel.flat_chop. exact Hn.
+  - unfold ViDefs.is_blankc. rewrite Hb0. fold (is_bl (nthb s 0)). destruct (is_bl (nthb s 0)) eqn:B; cbn [app].
+    + rewrite (uc_next_bl s B). apply TrViOpModel.flat_chop. apply nonul_skipn'. exact Hn.
+    + cbn [skipn]. rewrite <- Ec. apply TrViOpModel.flat_chop. exact Hn.
+Qed.
+
+(* ------------------------------------------------------------------ the translated vi_shift RUNS *)
+(* lbuf_edit(xb, t, i, i + 1) for a text t that is one line: the line block of row i gets the text (an edit in place); the other callees as
+   TrViOp.ideal_ext has them (the string builder as the record [oracles] describes it, vi_drawfix logs its call) *)
+Definition inplace_edit (m : mem) (lb p : nat) (i : Z) : res (val * mem) :=
+  match nth_error m lb with
+  | Some blk =>
+      match nth_error blk L_ln with
+      | Some (VPtr bln _) =>
+          match nth_error m bln with
+          | Some lnblk => match nth_error lnblk (Z.to_nat i) with Some (VPtr b _) => Ok (VUndef, upd m b (nth p m [])) | _ => Err EShape end
+          | None => Err EShape
+          end
+      | _ => Err EShape
+      end
+  | None => Err EShape
+  end.
+Definition shift_ext (f : nat) (args : list val) (m : mem) : res (val * mem) :=
+  if Nat.eqb f X_lbuf_edit then match args with [VPtr lb _; VPtr p _; VInt i; _] => inplace_edit m lb p i | _ => Err EShape end
+  else ideal_ext f args m.
+Definition shift_show (r : res (val * mem)) : option (val * option block * option block * list bytes * list block) :=
+  match r with
+  | Ok (v, m) => Some (v, nth_error m G_xrow, nth_error m G_xoff, mem_lines m (length cglobals),
+                       filter (fun b => match b with VInt 3 :: _ => true | _ => false end) (skipn (length cglobals + 5) m))
+  | Err _ => None
+  end.
+(* `>` on rows 0..1 of "ab\n", "cde\n", "f\n" (cursor (1,2)): a tab in front of both, xrow = 0, xoff = 1 = the indentation of the new row 0,
+   vi_drawfix(0, 1, 2, 0), result 16; then `<` on rows 0..2 of the result takes the tabs away again; `>` on the row range 2..4 touches row 2 only *)
+Lemma shift_run_examples :
+  let run args m := callx shift_ext cprog 50 8 F_vi_shift (map VInt args) m in
+  shift_show (run [0; 1; 1] (op_mem 1 2))
+    = Some (VInt 16, Some [VInt 0], Some [VInt 1], shift_rows_b 1 2 0 op_lines, [map VInt [3; 0; 1; 2; 0]]) /\
+  shift_rows_b 1 2 0 op_lines = [[9; 97; 98; 10]; [9; 99; 100; 101; 10]; [102; 10]]%N /\
+  (match run [0; 1; 1] (op_mem 1 2) with
+   | Ok (_, m1) => option_map (fun x => fst x) (shift_show (run [0; 2; -1] m1)) = Some (VInt 16, Some [VInt 0], Some [VInt 0], op_lines)
+   | _ => False
+   end) /\
+  shift_rows_b (-1) 3 0 (shift_rows_b 1 2 0 op_lines) = op_lines /\
+  option_map (fun x => snd (fst x)) (shift_show (run [2; 4; 1] (op_mem 0 0))) = Some (shift_rows_b 1 3 2 op_lines) /\
+  shift_rows_b 1 3 2 op_lines = [[97; 98; 10]; [99; 100; 101; 10]; [9; 102; 10]]%N.
+Proof. vm_compute. repeat split; reflexivity. Qed.
+(* the premises about the memory and the model hold on that run *)
+Lemma shift_small_run : shift_small 1 2 0 op_lines.
+Proof.
+  assert (E1 : shift_row_b 1 op_lines 0 = [[9; 97; 98; 10]; [99; 100; 101; 10]; [102; 10]]%N) by (vm_compute; reflexivity).
+  assert (E2 : shift_row_b 1 [[9; 97; 98; 10]; [99; 100; 101; 10]; [102; 10]]%N (0 + 1) = [[9; 97; 98; 10]; [9; 99; 100; 101; 10]; [102; 10]]%N) by (vm_compute; reflexivity).
+  cbn [shift_small]. rewrite E1, E2. unfold lines_small. cbn [length].
+  split; [split; [lia|repeat constructor; cbn [length]; lia]|]. split; [split; [lia|repeat constructor; cbn [length]; lia]|exact I].
+Qed.
+Lemma shift_run_premises :
+  ed_cur (op_mem 1 2) (length cglobals) (length cglobals + 1) [length cglobals + 2; length cglobals + 3; length cglobals + 4]%nat op_lines /\
+  cell_at (op_mem 1 2) G_xrow 1 /\ cell_at (op_mem 1 2) G_xoff 2 /\ shift_small 1 2 0 op_lines /\ (maxlen (shift_rows_b 1 2 0 op_lines) < 50)%nat.
+Proof.
+  split; [split; [apply op_mem_ed|vm_compute; intuition discriminate]|]. split; [vm_compute; reflexivity|]. split; [vm_compute; reflexivity|].
+  split; [exact shift_small_run|]. vm_compute. lia.
+Qed.
